@@ -409,23 +409,25 @@ def family_blocks(metric, max_cells, block=16384, md=None):
 
 def shards(tier):
     out = []
-    nr, per = (5, 14) if tier == "quick" else (12, 450)
+    nr, per = (4, 12) if tier == "quick" else (12, 450)
     for i in range(nr):
         out.append(("rand#%d" % i, lambda ctx: drive_hypothesis(ctx, body_rand, rand_cases(10 if tier == "thorough" else 8), per, shrink=(tier == "thorough"))))
     blocks = []
     if tier == "quick":
-        blocks += family_blocks("EUCLIDEAN", 12) + family_blocks("MANHATTAN", 12) + [b for b in family_blocks("MANHATTAN", 16) if (b["h"], b["w"]) == (4, 4)]
-        blocks += family_blocks("EUCLIDEAN", 12, md=1.5) + family_blocks("MANHATTAN", 10, md=2.0)
+        # quick: only the larger shapes (>= 9 cells; each batched call costs ~1.3 s of closure JIT whatever the tile count)
+        big = lambda bs: [b for b in bs if b["h"] * b["w"] >= 9]  # noqa
+        blocks += big(family_blocks("EUCLIDEAN", 12)) + big(family_blocks("MANHATTAN", 12)) + [b for b in family_blocks("MANHATTAN", 16) if (b["h"], b["w"]) == (4, 4)]
+        blocks += [b for b in family_blocks("EUCLIDEAN", 12, md=1.5) + family_blocks("MANHATTAN", 12, md=2.0) if b["h"] * b["w"] >= 10 and min(b["h"], b["w"]) >= 2]
     else:
         blocks += family_blocks("EUCLIDEAN", 18) + family_blocks("MANHATTAN", 18)
         for md in (1.0, 1.5, 2.3, 3.0):
             blocks += family_blocks("EUCLIDEAN", 15, md=md) + family_blocks("MANHATTAN", 15, md=md)
     for i in range(2 if tier == "quick" else 3):
         out.append(("gc#%d" % i, lambda ctx: drive_hypothesis(ctx, body_rand, gc_cases(), 12 if tier == "quick" else 300, shrink=(tier == "thorough"))))
-    nm, perm = (4, 14) if tier == "quick" else (4, 450)
+    nm, perm = (3, 12) if tier == "quick" else (4, 450)
     for i in range(nm):
         out.append(("multi#%d" % i, lambda ctx: drive_hypothesis(ctx, body_rand, multi_cases(), perm, shrink=(tier == "thorough"))))
-    ns = 5 if tier == "quick" else 16
+    ns = 6 if tier == "quick" else 16
     for k in range(ns):
         mine = blocks[k::ns]
         out.append(("family#%d" % k, lambda ctx, mine=mine, k=k: drive_enum(
